@@ -44,6 +44,11 @@ func init() {
 	solvers = append(solvers, solverSpec{"z3qi-5.1.0", func(f string, t int) []string {
 		return []string{"z3-new", fmt.Sprintf("-T:%d", t), "smt.qi.eager_threshold=100", "-smt2", f}
 	}, ""})
+	// and the default configuration under another random seed (the large merged-state queries of JoinGroup are
+	// decided in seconds under some seeds and not at all under others)
+	solvers = append(solvers, solverSpec{"z3seed5-5.1.0", func(f string, t int) []string {
+		return []string{"z3-new", fmt.Sprintf("-T:%d", t), "smt.random_seed=5", "-smt2", f}
+	}, ""})
 }
 
 // ---------------------------------------------------------------------------
